@@ -771,3 +771,49 @@ def output_program():
             body += st
         return stmts + body
     return gen
+
+
+def return_from_loops_program():
+    """C03: `return v` from any depth of loop nesting (counted and light-iteration loops) must end
+    only the call and leave the caller's loops and pending expression operands intact."""
+    def gen(ch):
+        env = Env(ch)
+        outer = ch.pick(['list', 'all', 'count', 'group'])
+        inner = ch.pick([None, 'count', 'list'])
+        body_ret = [R.If(R.Bin('>=', R.Var('k'), R.Var('w')), [R.Return(R.Bin('+', R.Var('k'), N(value=100)))]),
+                    R.Assign('k', R.Bin('+', R.Var('k'), N(value=1)))]
+        if inner == 'count':
+            body = [R.Repeat('count', body_ret, n=N(value=2))]
+        elif inner == 'list':
+            body = [R.Repeat('in', body_ret, lvar='il', items=[('light', R.Str('B')), ('light', R.Str('A'))])]
+        else:
+            body = body_ret
+        if outer == 'list':
+            loop = R.Repeat('in', body, lvar='ol', items=[('light', R.Str('A')), ('light', R.Str('B')), ('light', R.Str('C'))])
+        elif outer == 'all':
+            loop = R.Repeat('all', body, lvar='ol')
+        elif outer == 'group':
+            loop = R.Repeat('in', body, lvar='ol', items=[('group', R.Str('G1'))])
+        else:
+            loop = R.Repeat('count', body, n=N(value=3))
+        find = R.RoutineDef('find', ['w'], [R.Assign('k', N(value=0)), loop, R.Return(N(value=0))])
+        stmts = [find]
+        arg = lambda: env.num('count')
+        style = ch.pick(['in-light-loop', 'operand', 'statement-then-loop', 'argument', 'in-count-loop'])
+        if style == 'in-light-loop':
+            stmts.append(R.Repeat('in', [R.Print(R.Var('mine'), ln=True), R.Print(R.CallE('find', [arg()]), ln=True)], lvar='mine',
+                                  items=[('light', R.Str('C')), ('light', R.Str('A'))]))
+        elif style == 'operand':
+            stmts.append(R.Print(R.Bin('+', N(value=10), R.CallE('find', [arg()])), ln=True))
+            stmts.append(R.Print(R.Bin('-', R.CallE('find', [arg()]), R.CallE('find', [arg()])), ln=True))
+        elif style == 'statement-then-loop':
+            stmts.append(R.Call('find', [arg()]))
+            stmts.append(R.Repeat('all', [R.Print(R.Var('mine'), ln=True)], lvar='mine'))
+        elif style == 'argument':
+            stmts.append(R.RoutineDef('show', ['p', 'q'], [R.Print(R.Var('p'), ln=True), R.Print(R.Var('q'), ln=True)]))
+            stmts.append(R.Call('show', [R.CallE('find', [arg()]), R.CallE('find', [arg()])]))
+        else:
+            stmts.append(R.Repeat('count', [R.Print(R.CallE('find', [arg()]), ln=True)], n=N(value=2)))
+        stmts.append(R.Print(N(value=99), ln=True))
+        return stmts
+    return gen
